@@ -300,6 +300,8 @@ type Lemma struct {
 	Params []SpecParam
 	Body   Clause
 	Pkg    string
+	Axiom  bool // assumed, not proved (listed under A-fp / assumptions)
+	Uses   []string
 }
 
 type FuncContract struct {
@@ -329,6 +331,7 @@ type FuncContract struct {
 	File      string
 	ParamNames []string // for extern: explicit parameter names
 	Replay    string   // "scalar" if the function can be replayed with scalar inputs
+	Uses      []string // lemmas / axioms assumed (quantified) while verifying this function
 }
 
 type ContractFile struct {
@@ -349,7 +352,7 @@ var clauseKeywords = map[string]bool{
 	"spec": true, "func": true, "extern": true, "lemma": true, "props": true, "requires": true,
 	"ensures": true, "nowrap": true, "nopanic": true, "theory": true, "inline": true, "pure": true,
 	"modifies": true, "site": true, "covers-nonnil-returns": true, "loop": true, "let": true,
-	"trusted": true, "effect-free": true, "inline-pkg": true, "replay": true, "load-pkg": true, "inline-func": true,
+	"trusted": true, "effect-free": true, "inline-pkg": true, "replay": true, "load-pkg": true, "inline-func": true, "axiom": true, "uses": true,
 }
 
 // ParseContractFile reads the //@ lines of a contract file and groups them into clauses.
@@ -427,14 +430,14 @@ func ParseContractFile(path, pkgPath string) (*ContractFile, error) {
 			cf.Specs = append(cf.Specs, sf)
 			cur, curLemma = nil, nil
 			continue
-		case "lemma":
+		case "lemma", "axiom":
 			// lemma NAME(params): body
 			j := strings.Index(rc.text, ":")
 			if j < 0 {
 				return nil, fmt.Errorf("%s:%d: lemma needs ':'", path, rc.line)
 			}
 			head := strings.TrimSpace(rc.text[:j])
-			lm := &Lemma{Pkg: pkgPath}
+			lm := &Lemma{Pkg: pkgPath, Axiom: rc.kw == "axiom"}
 			if k := strings.Index(head, "("); k >= 0 {
 				lm.Name = strings.TrimSpace(head[:k])
 				ps, err := parseSpecParams(strings.TrimSuffix(strings.TrimSpace(head[k+1:]), ")"))
@@ -502,6 +505,10 @@ func ParseContractFile(path, pkgPath string) (*ContractFile, error) {
 				continue
 			}
 		}
+		if rc.kw == "uses" && curLemma != nil {
+			curLemma.Uses = append(curLemma.Uses, splitTopLevel(rc.text, ';')...)
+			continue
+		}
 		if cur == nil {
 			return nil, fmt.Errorf("%s:%d: clause %q outside func", path, rc.line, rc.kw)
 		}
@@ -549,6 +556,8 @@ func ParseContractFile(path, pkgPath string) (*ContractFile, error) {
 			cur.Trusted = true
 		case "replay":
 			cur.Replay = strings.TrimSpace(rc.text)
+		case "uses":
+			cur.Uses = append(cur.Uses, splitTopLevel(rc.text, ';')...)
 		case "modifies":
 			cur.ModGiven = true
 			if strings.TrimSpace(rc.text) != "nothing" {
